@@ -13,7 +13,7 @@ import (
 var (
 	namePool  = []string{"a", "b", "c", "d", "e", "ab"}
 	strPool   = []string{"", "a", "ab", "abc", "b", "é", "日本語", "a b", "x"}
-	numPool   = []string{"0", "1", "-1", "2", "3", "4", "1.5", "0.5", "2.5", "10", "-2", "7", "9007199254740992", "-9007199254740992", "9007199254740991", "1.0", "2.0", "100"}
+	numPool   = []string{"0", "1", "-1", "2", "3", "4", "1.5", "0.5", "2.5", "10", "-2", "7", "9007199254740992", "-9007199254740992", "9007199254740991", "1.0", "2.0", "100", "1e2", "1.5e1", "100e-2", "2E3", "1.0e0", "-1E+1", "25e-1"}
 	multPool  = []string{"1", "2", "0.5", "0.25", "3", "1.5", "4"}
 	patPool   = []string{"^a", "b$", "^[a-c]+$", "a|é", ".", "^$", "^(ab)+$", "[0-9]", "^\\p{L}+$"}
 	typePool  = []string{"null", "boolean", "integer", "number", "string", "array", "object"}
